@@ -38,6 +38,34 @@ VARIANTS = {
             why="key schedule: each of the 160 S-box look-ups through vs5..vs8 (index expression untouched)"),
     ]),
 }
+# The per-type cross-cutting harnesses (harness/cast5/xcut.rs: buffer routing C04, call histories C15, ...) compare two or
+# three block computations of one instance; with the real round functions those miters never answered (420 / 600 s).  The
+# base variants get the function boundary around the three macro bodies as well (nothing else), so that xcut.rs can run them
+# with f1/f2/f3 uninterpreted (gen_xcut.py ROUTE); harnesses that stub nothing run the real macro bodies through vf1..vf3.
+_INJ_F = '''
+#[inline(never)] pub(crate) fn vf1(d: u32, m: u32, r: u8) -> u32 { f1_real!(d, m, r) }
+#[inline(never)] pub(crate) fn vf2(d: u32, m: u32, r: u8) -> u32 { f2_real!(d, m, r) }
+#[inline(never)] pub(crate) fn vf3(d: u32, m: u32, r: u8) -> u32 { f3_real!(d, m, r) }
+macro_rules! f1 { ($D:expr, $m:expr, $r:expr) => { crate::vf1($D, $m, $r) }; }
+macro_rules! f2 { ($D:expr, $m:expr, $r:expr) => { crate::vf2($D, $m, $r) }; }
+macro_rules! f3 { ($D:expr, $m:expr, $r:expr) => { crate::vf3($D, $m, $r) }; }
+'''
+
+
+def f_boundary(anchor):
+    return [
+        Sub("src/lib.rs", "macro_rules! f1 {", "macro_rules! f1_real {", 1, why="round function type 1: macro body untouched, renamed"),
+        Sub("src/lib.rs", "macro_rules! f2 {", "macro_rules! f2_real {", 1, why="round function type 2: macro body untouched, renamed"),
+        Sub("src/lib.rs", "macro_rules! f3 {", "macro_rules! f3_real {", 1, why="round function type 3: macro body untouched, renamed"),
+        Sub("src/lib.rs", anchor, _INJ_F + anchor, 1, why="f1!/f2!/f3! now call vf1/vf2/vf3 whose bodies are the real macros"),
+    ]
+
+
+VARIANTS["cast5"] = dict(crate="cast5", subs=f_boundary("\nimpl KeySizeUser for Cast5 {"))
+VARIANTS["cast5+zeroize"] = dict(crate="cast5", subs=f_boundary("\nimpl KeySizeUser for Cast5 {"))
+# CAST-256 uses the same three macros (cast6/src/lib.rs)
+VARIANTS["cast6"] = dict(crate="cast6", subs=f_boundary("\n#[inline]\nfn forward_quad("))
+VARIANTS["cast6+zeroize"] = dict(crate="cast6", subs=f_boundary("\n#[inline]\nfn forward_quad("))
 _R = [("cast5:route", ["cast5/route.rs"])]
 PLAN = {"C09": list(_R), "C01": list(_R), "C20": list(_R)}
 ASSUMPTIONS = {
